@@ -265,7 +265,12 @@ pub fn run(args: &Args) -> i32 {
     for first_ttl in [1u8, 2, 250] {
         for max_samples in [0usize, 1, 2, 256] {
             for h in [2usize, 3] {
-                if h == 3 && (tier == Tier::Quick && !(first_ttl == 1 && max_samples == 2)) {
+                // three-hop alphabet (348 shapes): one configuration in quick, four in thorough
+                let h3_cfg = match tier {
+                    Tier::Quick => first_ttl == 1 && max_samples == 2,
+                    Tier::Thorough => matches!((first_ttl, max_samples), (1, 2) | (2, 0) | (250, 256) | (1, 1)),
+                };
+                if h == 3 && !h3_cfg {
                     continue;
                 }
                 let d = if h == 3 { depth - 1 } else { depth };
